@@ -6,7 +6,7 @@
 // ------------------------------------------------------------------------
 
 use super::{BerDecoder, BerHeader, SnmpOid, TAG_RELATIVE_OID, Tag};
-use crate::error::SnmpResult;
+use crate::error::{SnmpError, SnmpResult};
 
 #[derive(Debug, PartialEq, Clone)]
 pub struct SnmpRelativeOid<'a>(&'a [u8]);
@@ -26,28 +26,47 @@ impl SnmpRelativeOid<'_> {
     /// Apply relative oid to absolute one
     /// and return normalized absolute oid
     pub fn normalize<'a>(&self, oid: &SnmpOid) -> SnmpOid<'a> {
+        self.try_normalize(oid)
+            .expect("relative oid is not applicable")
+    }
+    /// Apply relative oid to absolute one
+    /// and return normalized absolute oid,
+    /// or an error when either of oids is malformed
+    pub fn try_normalize<'a>(&self, oid: &SnmpOid) -> SnmpResult<SnmpOid<'a>> {
+        // Base without first octet
+        let base = oid.0.get(1..).ok_or(SnmpError::InvalidData)?;
         // Number of subelements
         let rel_si = SnmpRelativeOid::subelements(self.0);
         // Number of subelements in base. First octet holds 2 subidentifiers.
-        let base_si = SnmpRelativeOid::subelements(&oid.0[1..]) + 2;
+        let base_si = SnmpRelativeOid::subelements(base) + 2;
         //
         if rel_si < base_si - 2 {
-            let offset = SnmpRelativeOid::find_subelement(&oid.0[1..], base_si - rel_si - 2)
+            let offset = SnmpRelativeOid::find_subelement(base, base_si - rel_si - 2)
                 .unwrap_or(0)
                 + 1;
-            let mut r = Vec::with_capacity(oid.0.len() + self.0.len());
-            r.extend_from_slice(&oid.0[..offset]);
+            let head = oid.0.get(..offset).ok_or(SnmpError::InvalidData)?;
+            let mut r = Vec::with_capacity(head.len() + self.0.len());
+            r.extend_from_slice(head);
             r.extend_from_slice(self.0);
-            SnmpOid::from(r)
+            Ok(SnmpOid::from(r))
         } else {
             // Replace fully
             // First value is collapsed to one
-            let mut r = Vec::with_capacity(self.0.len() - 1);
+            let (first, second, rest) = match self.0 {
+                [first, second, rest @ ..] => (*first, *second, rest),
+                _ => return Err(SnmpError::InvalidData),
+            };
+            let mut r = Vec::with_capacity(rest.len() + 1);
             // Collapse first two values into one octet
-            r.push(self.0[0] * 40 + self.0[1]);
+            r.push(
+                first
+                    .checked_mul(40)
+                    .and_then(|x| x.checked_add(second))
+                    .ok_or(SnmpError::InvalidData)?,
+            );
             // Push others
-            r.extend_from_slice(&self.0[2..]);
-            SnmpOid::from(r)
+            r.extend_from_slice(rest);
+            Ok(SnmpOid::from(r))
         }
     }
     // Calculate number of subelements
